@@ -26,7 +26,7 @@ HIST = hprop.HistoryProperty(
 )
 RULE = ("(a) component: journeys on routes returned by route() between generated positions (link starts/ends/interiors, snapped cells) on "
         "generated strongly connected street graphs with strongly varying lengths and speeds, the Denver graph and the straight-line "
-        "network, step lengths 1-1800 s or chosen so that a step runs out just before / after the end of a link, iterated with traverse() to the end of the journey; per step: time-length of the driven part "
+        "network (on a fifth of the generated graphs all link speeds are scaled x0.25 / x0.5 / x2 after the route was planned), step lengths 1-1800 s or chosen so that a step runs out just before / after the end of a link, iterated with traverse() to the end of the journey; per step: time-length of the driven part "
         "<= step + the sub-second part of every link driven to its end (charged in whole seconds) + one cell of snapping, reported distance = sum of driven links, remaining route starts "
         "where the driven part ends, driven + remaining links = original links in order with the same destination, strict progress when the "
         "step can cover >= 5 m, journey ends at the destination. (b) histories: position changes only with exactly one move event from a "
@@ -57,7 +57,10 @@ def st_case(draw) -> Dict[str, Any]:
     pos = graphs.st_position() if net != "hav" else st.tuples(st.just("cell"), st.integers(0, 300), st.integers(0, 300)).map(
         lambda t: ["cell", round(graphs.LAT0 + t[1] * 0.00008 * far, 6), round(graphs.LON0 + t[2] * 0.00008 * far, 6)])
     pairs = draw(st.lists(st.tuples(pos, pos, DT).map(list), min_size=1, max_size=6))
-    return {"net": net, "graph": g, "pairs": pairs}
+    # link speeds may have changed since the route was planned (traverse() takes them from the network, not from the route):
+    # the journey is then driven on a copy of the street graph whose speeds are all scaled
+    replan = draw(st.sampled_from([None, None, 0.5, 0.25, 2.0])) if net == "gen" else None
+    return {"net": net, "graph": g, "pairs": pairs, "speeds_scaled_since_planning": replan}
 
 
 def network_for(case):
@@ -85,10 +88,16 @@ def check_case(case: Dict[str, Any]) -> Tuple[List[Violation], Set[str], Dict[st
     flags: Set[str] = set()
     stats = collections.Counter()
     rn = network_for(case)
+    planned_on = rn
+    f = case.get("speeds_scaled_since_planning")
+    if f:
+        g2 = dict(case["graph"], edges=[[e[0], e[1], e[2], (e[3] or 40.0) * f] + ([e[4] / f] if len(e) > 4 else []) for e in case["graph"]["edges"]])
+        rn = graphs.build_network(g2)
+        flags.add("speeds_changed_since_planning")
     for pi, (os_, ds_, dt) in enumerate(case["pairs"]):
         o = graphs.resolve_position(rn, os_) if case["net"] != "hav" else rn.position_from_geoid(__import__("h3").geo_to_h3(os_[1], os_[2], 15))
         d = graphs.resolve_position(rn, ds_) if case["net"] != "hav" else rn.position_from_geoid(__import__("h3").geo_to_h3(ds_[1], ds_[2], 15))
-        route = rn.route(o, d)
+        route = planned_on.route(o, d)
         stats["journeys"] += 1
         if not route or route[0].start == route[-1].end:
             stats["closed_or_empty_routes"] += 1
